@@ -35,6 +35,7 @@ type tokenGen struct {
 	alphabet []uint32
 	calls    []genCall
 	gen      map[uint32]bool
+	genStep  map[uint32]int // scheduler step at which the token was (last) generated
 	// misbehave: return fewer tokens than asked when the alphabet is exhausted (legal "space exhausted")
 	exhaust bool
 }
@@ -76,6 +77,7 @@ func (g *tokenGen) GenerateTokens(n int, taken []uint32) ring.Tokens {
 	g.w.s.Event("%s GenerateTokens(%d, taken=%v) -> %v", g.actor, n, taken, out)
 	for _, t := range out {
 		g.gen[t] = true
+		g.genStep[t] = g.w.s.Steps
 	}
 	return out
 }
@@ -154,6 +156,7 @@ type world struct {
 	corruptAtStart string
 	ghostZones     []string
 	ghostIDs       int
+	truthfulGhosts bool
 	fresh            []*ring.Ring
 	lookupNontrivial bool
 	rangesNontrivial bool
@@ -238,7 +241,7 @@ func (w *world) addActor(i int, kinds []lcKind, zones []string) *actor {
 	a.slowShutdown = s.Chance(0.3, "slow-shutdown")
 	a.finalSleep = sim.Pick(s, "final-sleep", 0, 0, 12*time.Second)
 	a.kv = w.store.NewClient(a.id)
-	a.gen = &tokenGen{w: w, actor: a.id, rnd: rand.New(rand.NewSource(int64(s.Seed) + int64(i)*7919)), gen: map[uint32]bool{}}
+	a.gen = &tokenGen{w: w, actor: a.id, rnd: rand.New(rand.NewSource(int64(s.Seed) + int64(i)*7919)), gen: map[uint32]bool{}, genStep: map[uint32]int{}}
 	nAlpha := s.Range(0, len(tinyAlphabet), "alphabet")
 	for _, j := range s.Perm(len(tinyAlphabet), "alphabet-order")[:nAlpha] {
 		a.gen.alphabet = append(a.gen.alphabet, tinyAlphabet[j])
@@ -484,7 +487,9 @@ func (w *world) checkCommits() {
 				continue
 			}
 			// newly published token
-			if a.gen.gen[t] && !a.inheritedTokens[t] && !a.published[t] {
+			// "none of which was visible in the ring as another instance's token when chosen": the check applies
+			// to tokens chosen by the very function call that produced this write
+			if a.gen.gen[t] && a.gen.genStep[t] == c.FStep && !a.inheritedTokens[t] && !a.published[t] {
 				if owner, taken := others[t]; taken && !a.claimedFrom[owner] {
 					s.Fail("generated-token-already-taken", "", "commit #%d: %s published the generated token %d which was visible as a token of %s", c.Seq, a.id, t, owner)
 				}
